@@ -934,7 +934,7 @@ Lemma cset_loose_ok x s l : null s = false -> forallb loose_ok l = true -> foral
 Proof.
   intros Hs. induction l as [|t r IH]; [reflexivity|]. cbn [cset_loose forallb]. intros H.
   apply andb_true_iff in H as [H1 H2]. destruct (N.eqb (loose_id t) x).
-  - destruct t as [e|o]; cbn [forallb loose_ok]; [rewrite H1, H2; reflexivity|].
+  - destruct t as [e|o]; cbn [forallb]; [rewrite H1, H2; reflexivity|]. cbn [loose_ok].
     unfold nonempty_text. cbn [t_s]. rewrite Hs, H2. reflexivity.
   - cbn [forallb]. rewrite H1, (IH H2). reflexivity.
 Qed.
@@ -1001,4 +1001,38 @@ Proof.
   - split; [reflexivity|exact Hs].
   - apply andb_true_iff in Hg as [Hu Hk]. destruct (apply_sim u w Hs Hu) as [E Hs']. rewrite <- E. apply IH; assumption.
   - apply IH; assumption.
+Qed.
+
+(* ------------------------------------------------------------------ C01 *)
+Lemma cwf_shape w : cwf w -> shape_ok w = true.
+Proof.
+  unfold cwf, cwf_b, shape_ok. intros H. apply andb_true_iff in H as [H H3]. apply andb_true_iff in H as [_ H2].
+  rewrite H2, H3. reflexivity.
+Qed.
+
+Theorem step_refines F c o : shape_ok c = true -> step_ok F c o = true ->
+  astep F (abs_world c) o = (abs_world (fst (cstep F c o)), snd (cstep F c o)) /\ shape_ok (fst (cstep F c o)) = true.
+Proof. intros Hs Hg. apply run_sim; assumption. Qed.
+
+Theorem history_refines ops : forall c, shape_ok c = true -> hist_ok c ops = true ->
+  arun (abs_world c) ops = (abs_world (fst (crun c ops)), snd (crun c ops)) /\ shape_ok (fst (crun c ops)) = true.
+Proof.
+  induction ops as [|[F o] r IH]; intros c Hs Hg; cbn [arun crun hist_ok] in *.
+  - split; [reflexivity|exact Hs].
+  - apply andb_true_iff in Hg as [Hg1 Hg2]. destruct (step_refines F c o Hs Hg1) as [E Hs'].
+    rewrite E. destruct (cstep F c o) as [c1 res]. cbn [fst snd] in *.
+    destruct (IH c1 Hs' Hg2) as [E2 Hs2]. rewrite E2. destruct (crun c1 r) as [c2 rs]. split; [reflexivity|exact Hs2].
+Qed.
+
+Lemma step_refines_let F c o : cwf c -> step_ok F c o = true ->
+  let (c', r) := cstep F c o in shape_ok c' = true /\ astep F (abs_world c) o = (abs_world c', r).
+Proof.
+  intros Hc Hg. destruct (step_refines F c o (cwf_shape _ Hc) Hg) as [E Hs]. destruct (cstep F c o) as [c' r].
+  cbn [fst snd] in *. auto.
+Qed.
+Lemma history_refines_let ops c : cwf c -> hist_ok c ops = true ->
+  let (c', rs) := crun c ops in shape_ok c' = true /\ arun (abs_world c) ops = (abs_world c', rs).
+Proof.
+  intros Hc Hg. destruct (history_refines ops c (cwf_shape _ Hc) Hg) as [E Hs]. destruct (crun c ops) as [c' rs].
+  cbn [fst snd] in *. auto.
 Qed.
